@@ -679,3 +679,69 @@ func init() {
 		return p
 	}
 }
+
+func init() {
+	// C08/C19 family: demotion causes generated singly and in pairs timed to coincide. The
+	// validation interval is a multiple of H (its ticker is aligned with the heartbeat's), store
+	// latencies are often constant (so that a failing refresh and a failing validation read of
+	// the same tick return at the same virtual instant), and the adversary changes the record,
+	// the connection or the health at an arbitrary time; stops land on top of it.
+	families["c08"] = func(r *Rng) *Plan {
+		p := &Plan{Judge: []string{"C08", "C19", "C18", "C05"}}
+		baseTiming(r, p, hLattice[:5])
+		n := 1 + r.Intn(2)
+		p.Insts = mkInsts(r, n, 1)
+		for i := range p.Insts {
+			c := &p.Insts[i]
+			c.V = Pick(r, []time.Duration{p.H, p.H, 2 * p.H})
+			c.Monitor = r.Bool(0.4)
+			c.Grace = Pick(r, []time.Duration{0, 2 * p.H, 3 * p.H})
+			c.PromoteMode = Pick(r, []string{"block", "block", "return"})
+			c.DemoteDur = Pick(r, []time.Duration{0, 0, 5 * ms})
+			if r.Bool(0.3) {
+				c.HasHealth, c.HealthRest, c.MaxHealth = true, "h", 1+r.Intn(3)
+				c.Health = Pick(r, []string{"hhhhuuuhhhhuuuuhh", "hhuuhhhhuhuuuh", "hhhhhhuuuuuu"})
+			}
+			if n == 2 && r.Bool(0.5) {
+				c.Prio, c.Takeover = 1+i*3, i == 1
+			}
+			p.Actions = append(p.Actions, Action{At: time.Duration(i) * r.Dur(0, 3*p.H), Kind: AStart, Inst: i})
+		}
+		lat := r.Dur(1*ms, p.H/4)
+		if r.Bool(0.6) {
+			p.Store = StoreCfg{Req: [2]Dur{lat / 2, lat / 2}, Resp: [2]Dur{lat / 2, lat / 2}, WatchDelay: [2]Dur{0, Pick(r, []time.Duration{0, lat, 20 * ms})}}
+		} else {
+			p.Store = healthyStore(r, p.H/2)
+		}
+		p.Until = r.Dur(3*p.TTL, 8*p.TTL) + 2*sec
+		m := 1 + r.Intn(4)
+		for k := 0; k < m; k++ {
+			t := r.Dur(2*p.H, p.Until)
+			if r.Bool(0.4) { // exactly on a tick boundary of instance 0 (started at 0, leader after ~lat)
+				t = time.Duration(2+r.Intn(20))*p.H + lat + r.Dur(0, 2)
+			}
+			switch r.Intn(8) {
+			case 0:
+				p.Actions = append(p.Actions, Action{At: t, Kind: AOutPut, Key: "g1", Value: []byte(`{"id":"intruder","token":"00000000-0000-4000-8000-000000000001","priority":7}`)})
+			case 1:
+				p.Actions = append(p.Actions, Action{At: t, Kind: AOutDelete, Key: "g1"})
+			case 2:
+				p.Actions = append(p.Actions, Action{At: t, Kind: AExpire, Key: "g1"})
+			case 3:
+				p.Actions = append(p.Actions, Action{At: t, Kind: ADisconnect, Inst: r.Intn(n)})
+			case 4:
+				p.Actions = append(p.Actions, Action{At: t, Kind: AValidateOD, Inst: r.Intn(n)})
+			case 5:
+				p.Actions = append(p.Actions, Action{At: t, Kind: Pick(r, []string{AStop, AStopCtx}), Inst: r.Intn(n), DeleteKey: r.Bool(0.5), WaitForDemote: r.Bool(0.5)})
+				p.Actions = append(p.Actions, Action{At: t + r.Dur(p.H, 3*p.TTL), Kind: AStart, Inst: p.Actions[len(p.Actions)-1].Inst})
+			case 6:
+				p.Faults = append(p.Faults, Fault{Kind: Pick(r, []string{FError, FHang, FPartition}), Inst: r.Intn(n), From: t, To: t + r.Dur(2*p.H, 2*p.TTL), Err: "timeout"})
+			default:
+				p.Actions = append(p.Actions, Action{At: t, Kind: AReconnect, Inst: r.Intn(n)})
+			}
+		}
+		p.Tail = 0
+		p.Sched = SchedCfg{YieldProb: Pick(r, []float64{0.1, 0.3, 0.6}), StallMax: Pick(r, []time.Duration{0, 0, p.H / 20})}
+		return p
+	}
+}
